@@ -57,8 +57,9 @@ type normalizer struct {
 
 	noConcrete bool // do not bind interface parameters with the argument's own type
 	hasDefer   map[*ast.FuncDecl]bool
-	varDef     map[types.Object]ast.Expr // local variable defined once by this expression
-	varBad     map[types.Object]bool     // reassigned / address taken / unknown definition
+	varDef     map[types.Object]ast.Expr        // local variable defined once by this expression
+	varBad     map[types.Object]bool            // reassigned / address taken / unknown definition
+	varAssign  map[types.Object]*ast.AssignStmt // for `var x T; x = e`: the single assignment
 }
 
 func sigOfTypes(sig *types.Signature) string {
@@ -186,6 +187,9 @@ func Normalize(dir, goarch string, tags []string) (map[string][]byte, []string) 
 		}
 		if !changed {
 			changed = n.deleteRound()
+		}
+		if !changed {
+			changed = n.sroaRound()
 		}
 		if !changed {
 			break
@@ -420,6 +424,7 @@ type site struct {
 	parent ast.Node // parent of stmt
 	encl   ast.Node // enclosing FuncDecl / FuncLit
 	file   *ast.File
+	stack  []ast.Node  // ancestors of the call, outermost first
 	form   string      // expr, assign, return, nested
 	wrapIf *ast.IfStmt // statement is the Init of / nested in the header of this if
 }
@@ -527,6 +532,7 @@ func (n *normalizer) inlineRound() bool {
 			if s.stmt == nil || s.encl == nil {
 				return true
 			}
+			s.stack = append([]ast.Node{}, stack...)
 			if fd, isFD := s.encl.(*ast.FuncDecl); isFD && callee != nil {
 				if fn, _ := n.info.Defs[fd.Name].(*types.Func); fn == callee {
 					return true
@@ -922,6 +928,74 @@ func (n *normalizer) paramOnlyCalled(fd *ast.FuncDecl, pid *ast.Ident) bool {
 	return ok
 }
 
+// selectHoist: the call is (inside) the channel operand of a select case and is the first effectful evaluation of the whole
+// select statement; returns the select statement when the hoisted code can be placed in front of it.
+func (n *normalizer) selectHoist(s *site, cc *ast.CommClause) *ast.SelectStmt {
+	var sel *ast.SelectStmt
+	var selParent ast.Node
+	for i := len(s.stack) - 1; i >= 0; i-- {
+		if x, ok := s.stack[i].(*ast.SelectStmt); ok {
+			sel = x
+			if i > 0 {
+				selParent = s.stack[i-1]
+			}
+			break
+		}
+	}
+	if sel == nil || !isListParent(selParent, sel) {
+		return nil
+	}
+	operands := func(comm ast.Stmt) []ast.Expr {
+		switch c := comm.(type) {
+		case *ast.ExprStmt:
+			if u, ok := ast.Unparen(c.X).(*ast.UnaryExpr); ok && u.Op == token.ARROW {
+				return []ast.Expr{u.X}
+			}
+		case *ast.AssignStmt:
+			if len(c.Rhs) == 1 {
+				if u, ok := ast.Unparen(c.Rhs[0]).(*ast.UnaryExpr); ok && u.Op == token.ARROW {
+					return []ast.Expr{u.X}
+				}
+			}
+		case *ast.SendStmt:
+			return []ast.Expr{c.Chan, c.Value}
+		}
+		return nil
+	}
+	for _, cl := range sel.Body.List {
+		c2 := cl.(*ast.CommClause)
+		if c2.Comm == nil {
+			continue
+		}
+		ops := operands(c2.Comm)
+		if ops == nil {
+			return nil
+		}
+		if c2 != cc {
+			for _, o := range ops {
+				if !pureExpr(o, n.info) {
+					return nil
+				}
+			}
+			continue
+		}
+		// the clause of the call: everything evaluated before the call must be pure, the call unconditional
+		for _, o := range ops {
+			if o.Pos() <= s.call.Pos() && s.call.End() <= o.End() {
+				if !n.hoistable(&ast.ExprStmt{X: o}, s.call) {
+					return nil
+				}
+				return sel
+			}
+			if !pureExpr(o, n.info) {
+				return nil
+			}
+		}
+		return nil
+	}
+	return nil
+}
+
 func (n *normalizer) reject(s *site, code int) bool {
 	if os.Getenv("MQTTCHECK_DEBUG_NORM") != "" {
 		fmt.Fprintf(os.Stderr, "normalise: site %s at %s not inlined (reason #%d)\n", s.calleeName(), n.fset.Position(s.call.Pos()), code)
@@ -940,6 +1014,21 @@ func (s *site) calleeName() string {
 func (n *normalizer) indexVars() {
 	n.varDef = map[types.Object]ast.Expr{}
 	n.varBad = map[types.Object]bool{}
+	n.varAssign = map[types.Object]*ast.AssignStmt{}
+	declOnly := map[types.Object]bool{}
+	assigned := map[types.Object][]*ast.AssignStmt{}
+	defer func() {
+		// `var x T` followed by exactly one plain assignment `x = e` behaves like a definition
+		for obj := range declOnly {
+			as := assigned[obj]
+			if len(as) == 1 && !n.varBad[obj] {
+				n.varDef[obj] = as[0].Rhs[0]
+				n.varAssign[obj] = as[0]
+			} else if len(as) > 1 {
+				n.varBad[obj] = true
+			}
+		}
+	}()
 	bad := func(e ast.Expr) {
 		if id, ok := ast.Unparen(e).(*ast.Ident); ok {
 			if obj := n.info.ObjectOf(id); obj != nil {
@@ -969,6 +1058,17 @@ func (n *normalizer) indexVars() {
 							bad(l)
 						}
 					}
+				} else if y.Tok == token.ASSIGN && len(y.Lhs) == 1 && len(y.Rhs) == 1 {
+					if id, ok := y.Lhs[0].(*ast.Ident); ok && id.Name != "_" {
+						if obj := n.info.Uses[id]; obj != nil {
+							assigned[obj] = append(assigned[obj], y)
+							if _, hasDef := n.varDef[obj]; hasDef {
+								n.varBad[obj] = true
+							}
+						}
+					} else {
+						bad(y.Lhs[0])
+					}
 				} else {
 					for _, l := range y.Lhs {
 						bad(l)
@@ -979,6 +1079,12 @@ func (n *normalizer) indexVars() {
 					for i, id := range y.Names {
 						if obj := n.info.Defs[id]; obj != nil {
 							n.varDef[obj] = y.Values[i]
+						}
+					}
+				} else if len(y.Values) == 0 {
+					for _, id := range y.Names {
+						if obj := n.info.Defs[id]; obj != nil {
+							declOnly[obj] = true
 						}
 					}
 				}
@@ -1034,6 +1140,263 @@ func (n *normalizer) resolveLit(id *ast.Ident) (*ast.FuncLit, map[types.Object]b
 		}
 	}
 	return nil, nil
+}
+
+// sroaRound: a local `v := &T{f: a, g: b}` (T a struct of this package) that is only ever used through field selectors — directly
+// or through the single-assignment pointer copies that inlining introduces for method receivers — is replaced by one local
+// variable per field. go/ssa then lifts the fields to SSA values, so that state moved into a small helper struct by a
+// refactoring (`wait := newReconnectWait(…); wait.reset(); <-wait.after()`) is analysed exactly like the locals it replaced.
+// One candidate per round.
+func (n *normalizer) sroaRound() bool {
+	type use struct {
+		id            *ast.Ident
+		parent, grand ast.Node
+	}
+	uses := map[types.Object][]use{}
+	defStmt := map[types.Object]*ast.AssignStmt{}
+	declStmt := map[types.Object]*ast.DeclStmt{}
+	stmtParent := map[ast.Stmt]ast.Node{}
+	for _, f := range n.pp.Syntax {
+		var stack []ast.Node
+		ast.Inspect(f, func(x ast.Node) bool {
+			if x == nil {
+				stack = stack[:len(stack)-1]
+				return true
+			}
+			stack = append(stack, x)
+			switch y := x.(type) {
+			case *ast.Ident:
+				if obj := n.info.Uses[y]; obj != nil {
+					u := use{id: y}
+					if len(stack) >= 2 {
+						u.parent = stack[len(stack)-2]
+					}
+					if len(stack) >= 3 {
+						u.grand = stack[len(stack)-3]
+					}
+					uses[obj] = append(uses[obj], u)
+				}
+			case *ast.DeclStmt:
+				if len(stack) >= 2 {
+					stmtParent[y] = stack[len(stack)-2]
+				}
+				if gd, ok := y.Decl.(*ast.GenDecl); ok && gd.Tok == token.VAR && len(gd.Specs) == 1 {
+					if vs := gd.Specs[0].(*ast.ValueSpec); len(vs.Names) == 1 && len(vs.Values) == 0 {
+						if obj := n.info.Defs[vs.Names[0]]; obj != nil {
+							declStmt[obj] = y
+						}
+					}
+				}
+			case *ast.AssignStmt:
+				if len(stack) >= 2 {
+					stmtParent[y] = stack[len(stack)-2]
+				}
+				if y.Tok == token.DEFINE && len(y.Lhs) == 1 && len(y.Rhs) == 1 {
+					if id, ok := y.Lhs[0].(*ast.Ident); ok {
+						if obj := n.info.Defs[id]; obj != nil {
+							defStmt[obj] = y
+						}
+					}
+				}
+			}
+			return true
+		})
+	}
+	for obj, as := range n.varAssign {
+		defStmt[obj] = as
+	}
+	var cands []types.Object
+	for obj := range n.varDef {
+		cands = append(cands, obj)
+	}
+	sort.Slice(cands, func(i, j int) bool { return cands[i].Pos() < cands[j].Pos() })
+	for _, obj := range cands {
+		e := n.varDef[obj]
+		if n.varBad[obj] || defStmt[obj] == nil || !isListParent(stmtParent[defStmt[obj]], defStmt[obj]) {
+			continue
+		}
+		ue, isAddr := ast.Unparen(e).(*ast.UnaryExpr)
+		if !isAddr || ue.Op != token.AND {
+			continue
+		}
+		lit, ok := ast.Unparen(ue.X).(*ast.CompositeLit)
+		if !ok {
+			continue
+		}
+		named, _ := n.info.TypeOf(lit).(*types.Named)
+		if named == nil || named.Obj().Pkg() != n.pp.Types {
+			continue
+		}
+		st, ok := named.Underlying().(*types.Struct)
+		if !ok {
+			continue
+		}
+		inits := map[string]ast.Expr{}
+		var order []string
+		keyed := true
+		for _, el := range lit.Elts {
+			kv, ok := el.(*ast.KeyValueExpr)
+			if !ok {
+				keyed = false
+				break
+			}
+			k, ok := kv.Key.(*ast.Ident)
+			if !ok {
+				keyed = false
+				break
+			}
+			inits[k.Name] = kv.Value
+			order = append(order, k.Name)
+		}
+		if !keyed {
+			continue
+		}
+		// alias closure
+		alias := map[types.Object]bool{obj: true}
+		for changed := true; changed; {
+			changed = false
+			for o2, e2 := range n.varDef {
+				if alias[o2] || n.varBad[o2] {
+					continue
+				}
+				if id2, ok := ast.Unparen(e2).(*ast.Ident); ok && alias[n.info.Uses[id2]] {
+					alias[o2] = true
+					changed = true
+				}
+			}
+		}
+		// every use is a field selection, an alias definition, or `_ = x`
+		okAll := true
+		var sels []*ast.SelectorExpr
+		var dropStmts []*ast.AssignStmt
+		for a := range alias {
+			if a != obj {
+				ds := defStmt[a]
+				if ds == nil || !isListParent(stmtParent[ds], ds) {
+					okAll = false
+					break
+				}
+				dropStmts = append(dropStmts, ds)
+			}
+			for _, u := range uses[a] {
+				switch p := u.parent.(type) {
+				case *ast.SelectorExpr:
+					sel := n.info.Selections[p]
+					if p.X != ast.Expr(u.id) || sel == nil || sel.Kind() != types.FieldVal || len(sel.Index()) != 1 {
+						okAll = false
+					} else {
+						sels = append(sels, p)
+					}
+				case *ast.AssignStmt:
+					if p == defStmt[a] && len(p.Lhs) == 1 && p.Lhs[0] == ast.Expr(u.id) {
+						break // the defining assignment of `var x T; x = …`
+					}
+					if len(p.Lhs) != 1 || len(p.Rhs) != 1 || p.Rhs[0] != ast.Expr(u.id) {
+						okAll = false
+						break
+					}
+					l, isId := p.Lhs[0].(*ast.Ident)
+					switch {
+					case isId && l.Name == "_" && p.Tok == token.ASSIGN && isListParent(stmtParent[p], p):
+						dropStmts = append(dropStmts, p)
+					case isId && p.Tok == token.DEFINE && alias[n.info.Defs[l]]:
+					default:
+						okAll = false
+					}
+				default:
+					okAll = false
+				}
+			}
+		}
+		if !okAll || len(sels) == 0 {
+			continue
+		}
+		ds := defStmt[obj]
+		filename := n.fset.File(ds.Pos()).Name()
+		var file *ast.File
+		for _, f := range n.pp.Syntax {
+			if n.fset.File(f.Pos()).Name() == filename {
+				file = f
+			}
+		}
+		n.counter++
+		pfx := fmt.Sprintf("_sroa%d_", n.counter)
+		var gen, decl strings.Builder
+		okT := true
+		split := declStmt[obj] != nil && n.varAssign[obj] != nil // declared in one place, assigned in another
+		emit := func(fname string) {
+			var ft types.Type
+			for i := 0; i < st.NumFields(); i++ {
+				if st.Field(i).Name() == fname {
+					ft = st.Field(i).Type()
+				}
+			}
+			if ft == nil {
+				okT = false
+				return
+			}
+			tt, ok := n.typeText(ft, file, filename)
+			if !ok {
+				okT = false
+				return
+			}
+			init, has := inits[fname]
+			switch {
+			case split:
+				fmt.Fprintf(&decl, "var %s%s %s\n_ = %s%s\n", pfx, fname, tt, pfx, fname)
+				if has {
+					fmt.Fprintf(&gen, "%s%s = %s\n", pfx, fname, n.src(filename, init.Pos(), init.End()))
+				} else {
+					fmt.Fprintf(&gen, "{\nvar %sz %s\n%s%s = %sz\n}\n", pfx, tt, pfx, fname, pfx)
+				}
+			case has:
+				fmt.Fprintf(&gen, "var %s%s %s = %s\n_ = %s%s\n", pfx, fname, tt, n.src(filename, init.Pos(), init.End()), pfx, fname)
+			default:
+				fmt.Fprintf(&gen, "var %s%s %s\n_ = %s%s\n", pfx, fname, tt, pfx, fname)
+			}
+		}
+		done := map[string]bool{}
+		for _, fname := range order {
+			emit(fname)
+			done[fname] = true
+		}
+		for i := 0; i < st.NumFields(); i++ {
+			if fn := st.Field(i).Name(); !done[fn] {
+				if st.Field(i).Embedded() {
+					okT = false
+				}
+				emit(fn)
+			}
+		}
+		if !okT {
+			delete(n.imports, filename)
+			continue
+		}
+		line := n.fset.Position(ds.Pos()).Line
+		n.addEdit(filename, n.off(ds.Pos()), n.off(ds.End()), "\n"+n.pinLines(gen.String(), filename, line)+n.lineDirective(filename, n.fset.Position(ds.End()).Line))
+		if split {
+			d := declStmt[obj]
+			dl := n.fset.Position(d.Pos()).Line
+			n.addEdit(filename, n.off(d.Pos()), n.off(d.End()), "\n"+n.pinLines(decl.String(), filename, dl)+n.lineDirective(filename, n.fset.Position(d.End()).Line))
+		}
+		for _, d := range dropStmts {
+			fn2 := n.fset.File(d.Pos()).Name()
+			n.addEdit(fn2, n.off(d.Pos()), n.off(d.End()), "")
+		}
+		for a := range alias {
+			if d := declStmt[a]; d != nil && !(a == obj && split) {
+				fn2 := n.fset.File(d.Pos()).Name()
+				n.addEdit(fn2, n.off(d.Pos()), n.off(d.End()), "")
+			}
+		}
+		for _, sel := range sels {
+			fn2 := n.fset.File(sel.Pos()).Name()
+			n.addEdit(fn2, n.off(sel.Pos()), n.off(sel.End()), pfx+sel.Sel.Name)
+		}
+		n.notes = append(n.notes, fmt.Sprintf("replaced local *%s %s by one variable per field (%d field accesses)", named.Obj().Name(), obj.Name(), len(sels)))
+		return true
+	}
+	return false
 }
 
 // cleanupRound: a function literal held only by inlining temporaries whose calls have all been inlined is replaced by nil,
@@ -1463,6 +1826,15 @@ func (n *normalizer) inlineSite(filename string, s *site) (done bool) {
 	st := s.stmt
 	var wrapIf *ast.IfStmt
 	listCtx := isListParent(s.parent, st)
+	var selStmt *ast.SelectStmt
+	if cc, isComm := s.parent.(*ast.CommClause); isComm && cc.Comm == st {
+		// a channel operand of a select case: all operands are evaluated once, in source order, on entering the select
+		selStmt = n.selectHoist(s, cc)
+		if selStmt == nil {
+			return n.reject(s, 30)
+		}
+		listCtx = true
+	}
 	if !listCtx {
 		pi, ok := s.parent.(*ast.IfStmt)
 		switch {
@@ -1499,7 +1871,14 @@ func (n *normalizer) inlineSite(filename string, s *site) (done bool) {
 			form = "return"
 		}
 	}
-	if form == "nested" {
+	if selStmt != nil {
+		form = "nested"
+	}
+	if form == "nested" && selStmt != nil {
+		if nres != 1 {
+			return n.reject(s, 31)
+		}
+	} else if form == "nested" {
 		if nres != 1 || !n.hoistable(st, call) {
 			return n.reject(s, 5)
 		}
@@ -1528,6 +1907,9 @@ func (n *normalizer) inlineSite(filename string, s *site) (done bool) {
 	}
 	// ---- ranges that will be edited
 	stStart, stEnd := n.off(st.Pos()), n.off(st.End())
+	if selStmt != nil {
+		stStart, stEnd = n.off(selStmt.Pos()), n.off(selStmt.End())
+	}
 	if th != nil {
 		if thIf.Init == st {
 			stStart = n.off(thIf.Pos())
@@ -1540,7 +1922,11 @@ func (n *normalizer) inlineSite(filename string, s *site) (done bool) {
 			return n.reject(s, 7)
 		}
 	}
-	if n.overlaps(filename, stStart, stEnd) {
+	if selStmt != nil {
+		if n.overlaps(filename, stStart, stStart) || n.overlaps(filename, n.off(call.Pos()), n.off(call.End())) || n.overlaps(filename, stEnd, stEnd) {
+			return n.reject(s, 8)
+		}
+	} else if n.overlaps(filename, stStart, stEnd) {
 		return n.reject(s, 8)
 	}
 	if !n.checkFreeNames(fd, s, filename) {
@@ -1623,7 +2009,7 @@ func (n *normalizer) inlineSite(filename string, s *site) (done bool) {
 			}
 			t := fmt.Sprintf("%sr%d", pfx, i)
 			temps = append(temps, t)
-			fmt.Fprintf(&pre, "var %s %s\n", t, tt)
+			fmt.Fprintf(&pre, "var %s %s\n_ = %s\n", t, tt, t)
 		}
 	}
 	pre.WriteString("{\n")
